@@ -169,6 +169,32 @@ Proof.
   unfold resumed. rewrite Hc. reflexivity.
 Qed.
 
+(* the same when the slot holds a waiting state (INPUT prompt, key wait, listing): the CONT instruction restores it and hands
+   control back to the caller at once *)
+Theorem cont_instruction_waits : forall r k h, r_dirty r = false -> Linked (r_prog r) -> r_tron r = false ->
+  is_stopped (r_cont r) = false -> is_running (r_cont r) = false ->
+  exec_loop O (S k) h (entered r) = (resumed r, Ok EvRunning).
+Proof.
+  intros r k h Hd L Ht Hns Hnr. destruct L as [Hu Hw Hcu Hs Ha Hdir Hl Hr Hda].
+  cbn [exec_loop]. unfold rbind at 1. unfold rget at 1.
+  assert (Htr : r_tron (entered r) = false) by exact Ht.
+  rewrite Htr. cbn [andb]. unfold rbind at 1. unfold rret at 1.
+  unfold rbind at 1. unfold one_op. unfold rbind at 1. unfold rget at 1.
+  assert (Hop : nthN (l_ops (pg_link (r_prog (entered r)))) (r_pc (entered r)) = Some OpCont).
+  { cbn. rewrite <- (lenN_firstnN _ (pg_direct (r_prog r)) (l_ops (pg_link (r_prog r)))) at 2 by assumption.
+    apply nthN_app_at. }
+  rewrite Hop. unfold rbind at 1. unfold rmod at 1.
+  cbn [exec_op]. unfold do_cont. unfold rbind at 1. unfold rget at 1.
+  change (r_cont (set_pc (entered r) (r_pc (entered r) + 1))) with (r_cont r). rewrite Hns.
+  assert (Hst : r_state (set_pc (entered r) (r_pc (entered r) + 1)) = StRunning) by reflexivity.
+  rewrite Hst. cbn [is_running]. unfold rbind at 1. unfold rmod at 1. unfold rbind at 1. unfold rget at 1.
+  assert (Hst2 : r_state (set_pc (set_cont (set_state (set_pc (entered r) (r_pc (entered r) + 1))
+                                   (r_cont (set_pc (entered r) (r_pc (entered r) + 1)))) StStopped)
+                                 (r_cont_pc (set_pc (entered r) (r_pc (entered r) + 1)))) = r_cont r) by reflexivity.
+  rewrite Hst2.
+  rewrite Hnr. unfold rret. reflexivity.
+Qed.
+
 (* ---------- the calls between the interrupt and the prompt ---------- *)
 Fixpoint execs (r : rt) (ks : list N) : res (rt * list event) :=
   match ks with
